@@ -174,9 +174,14 @@ def stop_model(rates, max_cycles, fitness_error, early):
 def make_optimizer(case):
     cls = env.optimizer_classes()[case["opt"]]
     cfg = env.config_class(case["opt"])(**case["cfg"])
-    if case.get("prior_cfg"):
-        return cls(env.config_class(case["opt"])(**case["prior_cfg"])), cfg
-    return cls(cfg), cfg
+    first = env.config_class(case["opt"])(**case["prior_cfg"]) if case.get("prior_cfg") else cfg
+    if case.get("debug"):
+        # the documented per-cycle progress output (stdout is captured by the harness): printing must not change the run
+        try:
+            return cls(first, debug=True), cfg
+        except TypeError:
+            pass
+    return cls(first), cfg
 
 
 def agents_of(gen):
